@@ -32,6 +32,10 @@ UNITS = [
     U("append_char", "String::append(this|const_char)", "c_String_append_char", ["append_char.return"]),
     U("append_str", "String::append(this|%s)" % CREF, "c_String_append_str", ["append_str.other"], defs=["NV_ALIAS=0"], cost=100),
     U("append_str@self", "String::append(this|%s)" % CREF, "c_String_append_str", ["append_str.self"], defs=["NV_ALIAS=1"], cost=100),
+    U("prepend_buf", "String::prepend(this|ptr_const_char|unsigned_long_int)", "c_String_prepend_buf", ["prepend_buf.return"], cost=100),
+    U("prepend_str", "String::prepend(this|%s)" % CREF, "c_String_prepend_str", ["prepend_str.other"], defs=["NV_ALIAS=0"], cost=100, tier="thorough"),
+    U("prepend_str@self", "String::prepend(this|%s)" % CREF, "c_String_prepend_str", ["prepend_str.self"], defs=["NV_ALIAS=1"], cost=100),
+    U("eq", None, None, ["eq.true", "eq.false_content"], funcs=["String::operator==", "String::operator!="]),
     U("cstr", None, None, ["cstr.attached"], funcs=["String::operator const char*() const"]),
 ]
 TRUSTED = ["cbmc 6.11.0 / goto-instrument DFCC / CaDiCaL", "goto-cc C++ front end; String.hpp member subset (compat rules R2-R4)",
